@@ -121,7 +121,13 @@ class RenderContext:
         """Resolve the variable _path_ in the current namespace."""
         it = iter(path)
         root = next(it)
-        assert isinstance(root, str)
+        if not isinstance(root, str):
+            # A bracketed root that is not a name, like `[0]` or `[a]` where `a`
+            # resolves to a number or a list. There can be no such variable.
+            if default == UNDEFINED:
+                hint = f"{root!r} is undefined"
+                return self.env.undefined(str(root), hint=hint, token=token)
+            return default
 
         try:
             obj = self.scope[root]
@@ -157,7 +163,13 @@ class RenderContext:
         """Asynchronously resolve the variable _path_ in the current namespace."""
         it = iter(path)
         root = next(it)
-        assert isinstance(root, str)
+        if not isinstance(root, str):
+            # A bracketed root that is not a name, like `[0]` or `[a]` where `a`
+            # resolves to a number or a list. There can be no such variable.
+            if default == UNDEFINED:
+                hint = f"{root!r} is undefined"
+                return self.env.undefined(str(root), hint=hint, token=token)
+            return default
 
         try:
             obj = self.scope[root]
